@@ -31,13 +31,13 @@ def run(tier, seed, res):
     res.rule = RULE
     res.assumptions = ["key names unique and <= 63 chars, stream names unique and <= 127 chars, application id <= 127 chars (longer ones are truncated by design)",
                        "attributes are longer than 6 characters and end in the 6 colour characters the reader keeps",
-                       "all ranks of one trace register the same dictionary in the same order and use the same buffer size (documented requirement)",
+                       "all ranks of one trace register the same set of keywords (name, info length, convertor: 'consistent between ranks', profiling.h) — ranks after the first in a generated order, which the reader's per-file dictionary translation exists for — and use the same buffer size",
                        "HAS_INFO is passed exactly when an info pointer is passed; stream infos stay far below one buffer (dump_thread cannot split them)",
                        "info payload bytes are a fixed function of the generated event words"]
     rd = os.path.join(core.run_dir(PROP), "traces")
     os.makedirs(rd, exist_ok=True)
     n = 16
-    per = 8 if quick else 750
+    per = 30 if quick else 1500
     jobs = [dict(cmd=[b, "rc", rd], env={"RC_PARAMS": "seed=%d max_success=%d max_size=100" % (seed * 131 + i, per)}, tag="rc",
                  timeout=900 if quick else 14400) for i in range(n)]
     wr = core.run_workers(PROP, jobs, san=False)
